@@ -18,4 +18,16 @@ if rc != 0 or payload != ['0 612f62 612f62']:
     print(raw[-3000:], file=sys.stderr)
     sys.exit('replay build failed')
 PY
+# - scenario target dir: the real binaries (several checks replay or validate with them on every run)
+python3-vt - <<'PY'
+import sys
+sys.path.insert(0, '.')
+from lib.scenario import Scenario
+s = Scenario(lambda m: print(m, file=sys.stderr))
+rc, out = s.run({'a.do': 'echo hi\n'}, 'redo-ifchange a && cat a')
+s.cleanup()
+if rc != 0 or 'hi' not in out:
+    print(out[-2000:], file=sys.stderr)
+    sys.exit('scenario build failed')
+PY
 echo "setup ok"
